@@ -1,10 +1,11 @@
 from .runner import Property
 from .common import COMMON_TRUST
 from .fam_wire import WireFam
+from .fam_chain import ChainFam
 from .prop_C02 import CRYPTO_TRUST
 
 PROP = Property(
-    "C12", ["HsVerif.Props.C12"], [WireFam()],
+    "C12", ["HsVerif.Props.C12"], [WireFam(), ChainFam("fetch")],
     facts=[
         {"func": "internal/proto/hotstuffpb/convert.go:BlockFromProto", "order": ["NewBlock", "QuorumCertFromProto", "SetTimestamp"]},
         {"func": "internal/proto/hotstuffpb/convert.go:QuorumCertFromProto", "contains": ["NewQuorumCert", "QuorumSignatureFromProto", "GetView", "GetHash"]},
